@@ -37,7 +37,9 @@ structure Clean (nl p q : Str) : Prop where
   queryNo : q.all (fun c => c ≠ '#') = true
   safe : (nl ++ p ++ q).all (fun c => !isUnsafe c) = true
 
+def gemPrefix : Str := ['g', 'e', 'm', 'i', 'n', 'i', ':', '/', '/']
+
 def assemble (nl p q : Str) : Str :=
-  "gemini://".toList ++ nl ++ p ++ (if q.isEmpty then [] else '?' :: q)
+  gemPrefix ++ nl ++ p ++ (if q.isEmpty then [] else '?' :: q)
 
 end Url
